@@ -6,6 +6,7 @@ from ..pysym import SymExec, show, subterms, str_parts, terms_of
 from ..rules_pyx import N, C, A
 from .. import codec
 from .. import logic
+from .. import datafiles as df
 
 EXPLANATION = (
     'R7.1 conll head assignment: symbolic paths of _resolve_dependencies.rec show the mirror pair "head_is_left: '
@@ -421,6 +422,177 @@ def r_json_fresh(repo, rep, R='R7.8'):
         raise AnalysisError('depccg/printer/my_json.py: encoder functions not found')
 
 
+def r_prolog_text(repo, rep, R='R7.9'):
+    """Prolog records decode: (a) quoted atoms -- the escaping of a word is a chain of replacements in which no later step
+    rewrites what an earlier step wrote (else `'` -> `\\'` -> `\\\\'` ends the atom early), and the quote is among the
+    characters escaped; (b) the Japanese term writer separates the node category and every child with a comma."""
+    pm = repo.module('depccg/printer/prolog.py')
+    esc = pm.get('_escape_prolog', required=False)
+    n = 0
+    if esc is not None:
+        w = '%s:%s %s' % (pm.rel, esc.lineno, esc.name)
+        p = esc.args.args[0].arg
+        chains = []
+        for st, o in SymExec(esc).run():
+            if o == 'return' and st.ret is not None:
+                base, pairs = codec.replace_chain(st.ret)
+                chains.append((base, pairs))
+        ok = bool(chains)
+        detail = ''
+        for base, pairs in chains:
+            n += 1
+            if base != N(p):
+                ok, detail = False, 'the result is %s' % show(base)[:60]
+                continue
+            if not any(a == "'" and b.endswith("'") and len(b) == 2 and b[0] == '\\' for a, b in pairs):
+                ok, detail = False, 'the quote is not escaped as \\\' (steps: %s)' % pairs
+            for i, (a, b) in enumerate(pairs):
+                for a2, b2 in pairs[i + 1:]:
+                    if a2 and a2 in b and a2 != b2:
+                        ok, detail = False, 'step %r -> %r is rewritten by the later step %r -> %r' % (a, b, a2, b2)
+        rep.check(ok, R, w, 'prolog:escape', 'quoted atoms: the quote is escaped and no escaping step rewrites the output of an earlier one (%s)' % [pr for _, pr in chains],
+                  'a word with a quote no longer decodes as one Prolog atom: %s' % detail)
+    tj = pm.get('to_prolog_ja')
+    trav = pm.get('to_prolog_ja.traverse_tree')
+    w = '%s:%s %s' % (pm.rel, trav.lineno, trav.name)
+    loops = [l for l in ast.walk(trav) if isinstance(l, ast.For) and enclosing_function(l) is trav
+             and any(isinstance(c, ast.Call) and isinstance(c.func, ast.Name) and c.func.id == trav.name for c in ast.walk(l))]
+    if len(loops) != 1:
+        raise AnalysisError('%s: the child loop of %s was not found' % (pm.rel, trav.name))
+    loop = loops[0]
+    idx = None
+    it = loop.iter
+    if isinstance(it, ast.Call) and src(it.func) == 'enumerate' and isinstance(loop.target, ast.Tuple) and isinstance(loop.target.elts[0], ast.Name):
+        idx = loop.target.elts[0].id
+        seq = src(it.args[0])
+    else:
+        seq = src(it)
+    commas = [c for c in ast.walk(loop) if isinstance(c, ast.Call) and isinstance(c.func, ast.Attribute) and c.func.attr == 'write' and c.args
+              and isinstance(c.args[0], ast.Constant) and isinstance(c.args[0].value, str) and c.args[0].value.strip() == ',']
+    ok = False
+    detail = 'no comma is written in the child loop'
+    if len(commas) == 1:
+        guards = [g for g in _parents_until(commas[0], loop) if isinstance(g, ast.If)]
+        rec_calls = [c for c in ast.walk(loop) if isinstance(c, ast.Call) and isinstance(c.func, ast.Name) and c.func.id == trav.name]
+        before = commas[0].lineno <= min(c.lineno for c in rec_calls)
+        if not guards:
+            ok, detail = before, 'unconditional'
+        elif len(guards) == 1 and idx is not None and not guards[0].orelse:
+            t = src(guards[0].test).replace(' ', '')
+            always = {'%s<len(%s)' % (idx, seq), '%s<=len(%s)-1' % (idx, seq), '%s>=0' % idx, 'len(%s)>%s' % (seq, idx), 'True'}
+            ok, detail = before and t.replace(' ', '') in {a.replace(' ', '') for a in always}, 'guarded by `%s`' % src(guards[0].test)
+        else:
+            detail = 'guarded by %s' % [src(g.test) for g in guards]
+    n += 1
+    rep.check(ok, R, w, 'prolog-ja:separator', 'every child of a node is preceded by a comma (the category is the first argument of the term): %s' % detail,
+              'the arguments of a Japanese Prolog term are not all separated by commas: the comma before a child is %s' % detail)
+    rep.floor('prolog text rules', n, 2)
+
+
+def _sre_accepts(item, ch):
+    """does one parsed regex item (as produced by re._parser) accept the character ch?"""
+    import re._constants as K
+    op, arg = item
+    o = ord(ch)
+    if op == K.ANY:
+        return ch != '\n'
+    if op == K.LITERAL:
+        return arg == o
+    if op == K.NOT_LITERAL:
+        return arg != o
+    if op == K.IN:
+        neg = False
+        hit = False
+        for op2, a2 in arg:
+            if op2 == K.NEGATE:
+                neg = True
+            elif op2 == K.LITERAL:
+                hit = hit or a2 == o
+            elif op2 == K.RANGE:
+                hit = hit or a2[0] <= o <= a2[1]
+            elif op2 == K.CATEGORY:
+                if a2 == K.CATEGORY_WORD:
+                    hit = hit or ch.isalnum() or ch == '_'
+                elif a2 == K.CATEGORY_DIGIT:
+                    hit = hit or ch.isdigit()
+                elif a2 == K.CATEGORY_SPACE:
+                    hit = hit or ch.isspace()
+                elif a2 == K.CATEGORY_NOT_WORD:
+                    hit = hit or not (ch.isalnum() or ch == '_')
+                elif a2 == K.CATEGORY_NOT_DIGIT:
+                    hit = hit or not ch.isdigit()
+                elif a2 == K.CATEGORY_NOT_SPACE:
+                    hit = hit or not ch.isspace()
+        return hit != neg
+    return False
+
+
+def r_html_category(repo, rep, R='R7.10'):
+    """the html writer splits the text of a category into (symbols, [feature]) pieces with a regular expression; every
+    character that occurs between the square brackets of a shipped category (letters, digits, '=' and ',' of the Japanese
+    three-valued features) must be accepted inside the bracket group, or the feature is dropped from the page."""
+    import re._parser as sre
+    import re._constants as K
+    hm = repo.module('depccg/printer/html.py')
+    fn = hm.get('_mathml_cat')
+    w = '%s:%s %s' % (hm.rel, fn.lineno, fn.name)
+    pats = []
+    for c in ast.walk(fn):
+        if isinstance(c, ast.Call) and isinstance(c.func, ast.Attribute) and c.func.attr in ('findall', 'finditer'):
+            if isinstance(c.func.value, ast.Name) and c.func.value.id == 're' and c.args:
+                v = hm.literal(c.args[0])
+                if isinstance(v, ast.Constant) and isinstance(v.value, str):
+                    pats.append(v.value)
+            else:
+                v = hm.literal(c.func.value)
+                if isinstance(v, ast.Call) and src(v.func) in ('re.compile', 'compile') and v.args and isinstance(hm.literal(v.args[0]), ast.Constant):
+                    pats.append(hm.literal(v.args[0]).value)
+    if len(pats) != 1:
+        raise AnalysisError('%s: the pattern %s splits categories with was not found' % (hm.rel, fn.name))
+    # the characters features are written with, from the shipped inventories
+    alphabet = set()
+    for cfg in ('config_en', 'config_ja', 'config_rebank'):
+        v = df.load_jsonnet(repo, 'depccg/models/%s.jsonnet' % cfg)
+        for t in v.get('targets', []):
+            depth = 0
+            for ch in t:
+                if ch == '[':
+                    depth += 1
+                elif ch == ']':
+                    depth -= 1
+                elif depth > 0:
+                    alphabet.add(ch)
+    try:
+        tree = sre.parse(pats[0])
+    except Exception as e:
+        raise AnalysisError('%s: pattern %r does not parse: %s' % (hm.rel, pats[0], e))
+    groups = []
+
+    def walk(seq):
+        for op, arg in seq:
+            if op == K.SUBPATTERN:
+                groups.append(list(arg[3]))
+                walk(arg[3])
+            elif op in (K.MAX_REPEAT, K.MIN_REPEAT):
+                walk(arg[2])
+            elif op == K.BRANCH:
+                for b in arg[1]:
+                    walk(b)
+    walk(tree)
+    ok = False
+    detail = 'no group of the pattern matches a bracketed feature'
+    for g in groups:
+        if len(g) == 3 and g[0] == (K.LITERAL, ord('[')) and g[2] == (K.LITERAL, ord(']')) and g[1][0] in (K.MAX_REPEAT, K.MIN_REPEAT):
+            lo, hi, inner = g[1][1]
+            if len(inner) == 1:
+                refused = sorted(ch for ch in alphabet if not _sre_accepts(inner[0], ch))
+                ok = not refused and hi == K.MAXREPEAT
+                detail = 'the bracket group accepts all %d feature characters of the shipped inventories' % len(alphabet) if ok else \
+                    'the bracket group refuses %s' % (refused if refused else 'features longer than %s characters' % hi)
+    rep.check(ok, R, w, 'html:feature-group', 'categories are split into symbols and [feature] pieces without loss (%s)' % detail,
+              'the html page drops features from categories: %s (pattern %r)' % (detail, pats[0]))
+
+
 def check(repo, rep, tier):
     from ..lints import r_import_time_language
     r_import_time_language(repo, rep, 'R7.4', repo.py_files('depccg/printer'))
@@ -444,3 +616,7 @@ def check(repo, rep, tier):
     r_ptb(repo, rep, writer_only=True, RT='R7.7', RE='R7.7')
     from .c15 import r_ids
     r_ids(repo, rep, 'R7.6')
+    rep.rule('R7.9', 'Prolog text decodes: the escaping steps of quoted atoms do not rewrite each other; the arguments of a Japanese term are comma-separated')
+    r_prolog_text(repo, rep)
+    rep.rule('R7.10', 'the html category splitter accepts every feature spelling of the shipped inventories inside its bracket group')
+    r_html_category(repo, rep)
